@@ -1,6 +1,8 @@
 import A2Verif.Model.Hex
 import A2Verif.Model.Nibble
 import A2Verif.Model.Flat
+import A2Verif.Model.Nibble35
+import A2Verif.Model.Track
 /-!
 driver family `c08`
 
@@ -8,6 +10,12 @@ codec ops (bytes as hex):
 * `c08 enc44 <1 byte>` → 2 bytes; `c08 dec44 <2 bytes>` → 1 byte
 * `c08 enc62 <256 bytes>` → 343 disk bytes; `c08 dec62 <343 bytes>` → `ok <256 bytes>` | `err invalid-byte` | `err bad-checksum`
 * `c08 enc53 <256 bytes>` → 411 disk bytes; `c08 dec53 <411 bytes>` → likewise
+* `c08 enc35 <524 bytes>` → 703 disk bytes (3.5 inch); `c08 dec35 <703 bytes>` → `ok <524 bytes>` | `err …`
+
+single 5.25 inch tracks (the real `TrackBits` object on a real track buffer):
+* `c08 trk <six:0|1> <syncBits> <bitCount> <bitPtr> <hex buffer> <ops>` with `<ops>` = `;`-separated
+  `r:<track>:<sector>`, `w:<track>:<sector>:<hex 256>`, `p:<bit pointer>`; answer: per op `ok:<hex>` / `ok` /
+  `err:<kind>`, then `ptr:<bit pointer>` and `fnv:<fnv1a-64 of the whole buffer>`
 
 flat image op sequences, starting from the freshly created (all zero) image:
 * `c08 seq do <tracks> <dos33:0|1> <ops>`, `c08 seq po <blocks> <ops>`, `c08 seq d13 <tracks> <ops>`,
@@ -55,6 +63,12 @@ def handleCodec (toks : List String) : Option String :=
   | ["dec53", h] => do
     let bs ← ofHex h
     if bs.length = 411 then some (showDec (dec53 bs)) else none
+  | ["enc35", h] => do
+    let bs ← ofHex h
+    if bs.length = 524 then (A2Verif.Model.Nibble35.enc35 bs).map toHex else none
+  | ["dec35", h] => do
+    let bs ← ofHex h
+    if bs.length = 703 then some (showDec (A2Verif.Model.Nibble35.dec35 bs)) else none
   | _ => none
 
 section flat
@@ -185,8 +199,73 @@ def handleSeq (toks : List String) : Option String :=
 
 end flat
 
+section track
+open A2Verif.Model.Track
+
+def fnvT (bs : List Nat) : Nat :=
+  bs.foldl (fun h b => ((h ^^^ b) * 0x100000001b3) % 18446744073709551616) 0xcbf29ce484222325
+
+def byteBits (b : Nat) : List Bool := (List.range 8).map (fun i => b.testBit (7 - i))
+
+def packBits : List Bool → List Nat
+  | b0 :: b1 :: b2 :: b3 :: b4 :: b5 :: b6 :: b7 :: rest =>
+    ([b0, b1, b2, b3, b4, b5, b6, b7].foldl (fun v b => v * 2 + (if b then 1 else 0)) 0) :: packBits rest
+  | _ => []
+
+def showTErr : TErr → String
+  | .badTrack => "err:bad-track"
+  | .sectorNotFound => "err:sector-not-found"
+  | .invalidByte => "err:invalid-byte"
+  | .badChecksum => "err:bad-checksum"
+
+inductive TOp
+  | r (t s : Nat)
+  | w (t s : Nat) (d : List Nat)
+  | p (n : Nat)
+
+def parseTOp (s : String) : Option TOp :=
+  match s.splitOn ":" with
+  | ["r", t, c] => do some (.r (← t.toNat?) (← c.toNat?))
+  | ["w", t, c, h] => do
+    let d ← ofHex h
+    if d.length = 256 then some (.w (← t.toNat?) (← c.toNat?) d) else none
+  | ["p", n] => do some (.p (← n.toNat?))
+  | _ => none
+
+def runTOps (f : Fmt) : ATrk → List TOp → List String → List String × ATrk
+  | t, [], acc => (acc.reverse, t)
+  | t, op :: rest, acc =>
+    match op with
+    | .r tr sc =>
+      let x := readSector f tr sc t
+      runTOps f x.2 rest ((match x.1 with | .ok d => "ok:" ++ toHex d | .error e => showTErr e) :: acc)
+    | .w tr sc d =>
+      let x := writeSector f d tr sc t
+      runTOps f x.2 rest ((match x.1 with | .ok _ => "ok" | .error e => showTErr e) :: acc)
+    | .p n => runTOps f ⟨t.buf, if n < t.buf.size then n else t.pos⟩ rest ("ok" :: acc)
+
+def handleTrk (toks : List String) : Option String :=
+  match toks with
+  | [six, sync, n, ptr, hex, o] => do
+    let six ← flag six
+    let sync ← sync.toNat?
+    let n ← n.toNat?
+    let ptr ← ptr.toNat?
+    let bytes ← ofHex hex
+    let ops ← if o == "-" then some [] else (o.splitOn ";").mapM parseTOp
+    let allBits := (bytes.map byteBits).flatten
+    if n > allBits.length ∨ n = 0 ∨ ptr ≥ n then none else
+    let f : Fmt := { six := six, syncBits := sync, maxTries := bytes.length }
+    let (outs, t) := runTOps f ⟨(allBits.take n).toArray, ptr⟩ ops []
+    let back := packBits (t.buf.toList ++ allBits.drop n)
+    some (";".intercalate (outs ++ ["ptr:" ++ toString t.pos, "fnv:" ++ toString (fnvT back)]))
+  | _ => none
+
+end track
+
 def handle (toks : List String) : String :=
   match toks with
+  | "trk" :: rest => (handleTrk rest).getD "bad-request"
   | "seq" :: rest => (handleSeq rest).getD "bad-request"
   | _ => (handleCodec toks).getD "bad-request"
 
